@@ -119,6 +119,29 @@ def base_cfgs(tier):
     return cfgs
 
 
+def reduced_masks():
+    """128 subsets: every subset of the six automations that interleave with decisions (antes, collection, burning, hole and board
+    dealing, showing) x the remaining five (blinds, run-out choice, killing, pushing, pulling) all on / all off"""
+    A = [a.name for a in C.AUTOS]
+    core = ['ANTE_POSTING', 'BET_COLLECTION', 'CARD_BURNING', 'HOLE_DEALING', 'BOARD_DEALING', 'HOLE_CARDS_SHOWING_OR_MUCKING']
+    rest = [a for a in A if a not in core]
+    out = []
+    for k in range(64):
+        sub = [c for i, c in enumerate(core) if k >> i & 1]
+        for r in ([], rest):
+            out.append(sum(1 << A.index(a) for a in sub + r))
+    return out
+
+
+def quick_extra_cfgs():
+    """draw and stud games in the quick tier, on the reduced automation lattice"""
+    return [
+        ('draw-hu-reduced-lattice', C.nt((3, 5), game='NoLimitDeuceToSevenLowballSingleDraw'), {'raises': 'minmax', 'discards': ('none', 'first')}),
+        ('triple-draw-hu-reduced-lattice', C.fl((3, 6), game='FixedLimitDeuceToSevenLowballTripleDraw'), {'discards': ('none', 'first'), 'fold': False}),
+        ('stud-hu-reduced-lattice', C.stud((3, 6)), {}),
+    ]
+
+
 def jobs(tier, seed):
     out = []
     for fam, cfg, o in base_cfgs(tier):
@@ -128,6 +151,13 @@ def jobs(tier, seed):
             oo = {'players': True, 'show': (None, True)}
             oo.update(o)
             out.append({'family': fam, 'cfg': c, 'opts': oo, 'state_cap': 200000, 'time_cap': 20})
+    for fam, cfg, o in quick_extra_cfgs():
+        for mask in reduced_masks():
+            c = dict(cfg)
+            c['autos'] = mask
+            oo = {'players': False, 'show': (None,)}
+            oo.update(o)
+            out.append({'family': fam, 'cfg': c, 'opts': oo, 'state_cap': 200000, 'time_cap': 60, 'dev_bound': 2})
     return out
 
 
@@ -141,4 +171,5 @@ def sanity(agg, counters, fam, tier):
 
 
 def bounds(tier):
-    return 'all 2048 automation subsets x {%s}' % ', '.join(f for f, _, _ in base_cfgs(tier))
+    return ('all 2048 automation subsets x {%s}; 128-subset reduced lattice (k<=2 deviations) x {%s}' %
+            (', '.join(f for f, _, _ in base_cfgs(tier)), ', '.join(f for f, _, _ in quick_extra_cfgs())))
